@@ -575,11 +575,8 @@ func c03SyntaxCases(thorough bool, emit func(spellCase)) {
 // c03GeneratedPrograms: every generated program followed by every kind of accessor / method / filter
 // step parses to itself (grammar actions: the value of an empty optional production, the step list
 // after a parenthesised expression, a subscript or a filter), and .** levels at the int32 boundary.
-func c03GeneratedPrograms(thorough bool, emit func(spellCase)) {
-	g := newFullGen()
-	n := 3
-	bases := g.all(n)
-	bases = append(bases, g.constructPairs()...)
+// c03Trail: one step of every kind (accessors, methods with and without arguments, filter).
+func c03Trail() []*Expr {
 	tpl := "HH24:MI"
 	trail := []*Expr{sKey("k"), sAnyKey(), sAnyArray(), sAny(0, -1), sAny(1, 2), sAny(3, 3), sAny(-1, -1), sAny(1, -1), sAny(0, 0), sIndex(sub1(eInt(0))), sIndex(subR(eInt(0), eLast())), sIndex(sub1(eInt(1)), sub1(eInt(2))),
 		sDecimal(nil, nil), sDecimal(i64(5), nil), sDecimal(i64(5), i64(2)), {K: KDT, S: "datetime", T: &tpl}, sFilter(eCmp("==", eCur(), eInt(1)))}
@@ -592,6 +589,15 @@ func c03GeneratedPrograms(thorough bool, emit func(spellCase)) {
 			trail = append(trail, sDT(m, i64(3)))
 		}
 	}
+	return trail
+}
+
+func c03GeneratedPrograms(thorough bool, emit func(spellCase)) {
+	g := newFullGen()
+	n := 3
+	bases := g.all(n)
+	bases = append(bases, g.constructPairs()...)
+	trail := c03Trail()
 	for i, b := range bases {
 		emit(spellCase{"generated-program", Path{E: b}.String(), Path{E: b}})
 		for j, t := range trail {
